@@ -14,6 +14,7 @@ import (
 	"github.com/ipld/go-ipld-prime/datamodel"
 
 	"github.com/ucan-wg/go-ucan/did"
+	"github.com/ucan-wg/go-ucan/pkg/args"
 	"github.com/ucan-wg/go-ucan/pkg/command"
 	"github.com/ucan-wg/go-ucan/pkg/policy"
 	"github.com/ucan-wg/go-ucan/pkg/policy/literal"
@@ -300,8 +301,41 @@ func buildInvocation(c cast, s InvSpec, prf []cid.Cid) (*invocation.Token, error
 		return nil, fmt.Errorf("command: %w", err)
 	}
 	var opts []invocation.Option
-	for _, kv := range s.Args {
-		opts = append(opts, invocation.WithArgument(kv.Key, valToGo(kv.V)))
+	switch s.ArgsVia {
+	case "args", "include", "split":
+		a := args.New()
+		n := len(s.Args)
+		if s.ArgsVia == "split" {
+			n = (n + 1) / 2
+		}
+		for _, kv := range s.Args[:n] {
+			if err := a.Add(kv.Key, valToGo(kv.V)); err != nil {
+				return nil, fmt.Errorf("args.Add: %w", err)
+			}
+		}
+		if s.ArgsVia == "include" {
+			b := args.New()
+			b.Include(a)
+			a = b
+		}
+		opts = append(opts, invocation.WithArguments(a))
+		for _, kv := range s.Args[n:] {
+			opts = append(opts, invocation.WithArgument(kv.Key, valToGo(kv.V)))
+		}
+	case "builder":
+		b := args.NewBuilder()
+		for _, kv := range s.Args {
+			b.Add(kv.Key, valToGo(kv.V))
+		}
+		a, err := b.Build()
+		if err != nil {
+			return nil, fmt.Errorf("args.Builder: %w", err)
+		}
+		opts = append(opts, invocation.WithArguments(a))
+	default:
+		for _, kv := range s.Args {
+			opts = append(opts, invocation.WithArgument(kv.Key, valToGo(kv.V)))
+		}
 	}
 	if s.Aud >= 0 {
 		opts = append(opts, invocation.WithAudience(c.did(s.Aud)))
@@ -334,6 +368,8 @@ func buildInvocation(c cast, s InvSpec, prf []cid.Cid) (*invocation.Token, error
 	}
 	if s.NonceLen > 0 {
 		opts = append(opts, invocation.WithNonce(labelNonce(s.Label, s.NonceLen)))
+	} else if s.NonceLen < 0 {
+		opts = append(opts, invocation.WithEmptyNonce())
 	}
 	for _, m := range s.Meta {
 		switch {
